@@ -93,6 +93,7 @@ type Obligation struct {
 	Goal   *Term
 	Note   string
 	LenBound bool // include the axiom len(x) <= 2^56
+	Fuel   int
 	ctx    *vcCtx
 }
 
@@ -109,6 +110,7 @@ type vcCtx struct {
 	wrapSigned bool
 	names map[string]int
 	seenFact map[string]bool
+	fuel   int
 }
 
 func (c *vcCtx) assume(t *Term) {
@@ -180,6 +182,14 @@ type hdrInfo struct {
 	measure *Term
 	st      *State
 	li      *loopInfo
+	frames  []loopFrame
+}
+
+// loopFrame is a declared loop frame: key may change only at refs.
+type loopFrame struct {
+	key  string
+	refs []*Term
+	hdr  *Term
 }
 
 type contrib struct {
@@ -219,7 +229,7 @@ func (f *frame) oblige(class, label string, goal *Term, pos token.Pos) {
 	if n := f.c.names[name]; n > 1 {
 		name = fmt.Sprintf("%s#%d", name, n)
 	}
-	f.c.obls = append(f.c.obls, &Obligation{Name: name, Class: class, Func: f.c.fnKey, Pos: f.posOf(pos), NFacts: len(f.c.facts), Goal: g, ctx: f.c})
+	f.c.obls = append(f.c.obls, &Obligation{Name: name, Class: class, Func: f.c.fnKey, Pos: f.posOf(pos), NFacts: len(f.c.facts), Goal: g, ctx: f.c, Fuel: f.c.fuel})
 }
 
 // assume adds a fact guarded by the current reach.
@@ -1088,6 +1098,33 @@ func (f *frame) enterLoop(h *ssa.BasicBlock, li *loopInfo, cs []contrib) error {
 		}
 		f.e.warn("%s: loop %d modifies unknown locations: whole state havocked", f.fn.Name(), li.Ord)
 	}
+	// `loop N modifies` entries, resolved to (key, reference) in the state before the loop
+	declared := map[string][]*Term{}
+	var loopFrames []loopFrame
+	if lc != nil && len(lc.Modifies) > 0 {
+		tmp := &FuncContract{Modifies: lc.Modifies, Recv: f.fc.Recv, Params: f.fc.Params, File: f.fc.File, Line: f.fc.Line}
+		mls, err := parseModifies(tmp)
+		if err != nil {
+			return err
+		}
+		for _, ml := range mls {
+			ks, err := f.e.modKeys(f.fn, ml)
+			if err != nil {
+				return fmt.Errorf("%s:%d: loop %d modifies: %v", f.fc.File, f.fc.Line, li.Ord, err)
+			}
+			pv, err := f.val(f.fn.Params[ml.param])
+			if err != nil {
+				return err
+			}
+			ref, err := f.modRef(f.fn, ml, pv, f.st)
+			if err != nil {
+				return err
+			}
+			for _, k := range ks {
+				declared[k] = append(declared[k], ref)
+			}
+		}
+	}
 	for _, k := range sortedKeys(keys.keys) {
 		mi := keys.keys[k]
 		var before *Term
@@ -1095,6 +1132,21 @@ func (f *frame) enterLoop(h *ssa.BasicBlock, li *loopInfo, cs []contrib) error {
 			before = f.get(f.st, k, s)
 		}
 		f.havoc(k, fmt.Sprintf("%sb%d", f.prefix, h.Index))
+		// declared loop frame (`loop N modifies p.a.f`): assumed at the header relative to the state
+		// before the loop, and proved at every back edge relative to the header state
+		if before != nil && lc != nil {
+			if refs, ok := declared[k]; ok {
+				r := Const(fmt.Sprintf("bv!%d", f.e.nextBV()), SRef)
+				var excl []*Term
+				for _, t := range refs {
+					excl = append(excl, Not(Eq(r, t)))
+				}
+				after := f.st.m[k]
+				f.assume(Forall([]*Term{r}, Implies(And(excl...), Eq(Select(after, r), Select(before, r))), []*Term{Select(after, r)}))
+				loopFrames = append(loopFrames, loopFrame{key: k, refs: refs, hdr: after})
+				continue
+			}
+		}
 		// loop frame: the array is unchanged at every reference the loop does not write at, provided all
 		// written references are single values computed before the loop
 		if before == nil || mi.unknown {
@@ -1127,7 +1179,7 @@ func (f *frame) enterLoop(h *ssa.BasicBlock, li *loopInfo, cs []contrib) error {
 		after := f.st.m[k]
 		f.assume(Forall([]*Term{r}, Implies(And(excl...), Eq(Select(after, r), Select(before, r))), []*Term{Select(after, r)}))
 	}
-	f.hdr[h] = &hdrInfo{phiVals: hv, li: li, st: f.st.clone()}
+	f.hdr[h] = &hdrInfo{phiVals: hv, li: li, st: f.st.clone(), frames: loopFrames}
 	if lc != nil {
 		for _, inv := range lc.Invariants {
 			t, err := f.evalLoopClause(li, lc, inv, hv)
@@ -1193,6 +1245,20 @@ func (f *frame) backEdge(from, h *ssa.BasicBlock, cond *Term) error {
 			return err
 		}
 		f.oblige("inv-step", fmt.Sprintf("loop%d:%s", li.Ord, inv.Label), t, from.Instrs[len(from.Instrs)-1].Pos())
+	}
+	for _, lf := range hi.frames {
+		cur := f.st.m[lf.key]
+		if cur == nil || cur.String() == lf.hdr.String() {
+			continue
+		}
+		r := Const(fmt.Sprintf("bv!%d", f.e.nextBV()), SRef)
+		var excl []*Term
+		for _, t := range lf.refs {
+			excl = append(excl, Not(Eq(r, t)))
+		}
+		f.e.Defs.noteFunc("preexisting", []*Sort{SRef}, SBool)
+		excl = append(excl, App("preexisting", SBool, r))
+		f.oblige("loop-frame", fmt.Sprintf("loop%d:%s", li.Ord, sanitize(lf.key)), Forall([]*Term{r}, Implies(And(excl...), Eq(Select(cur, r), Select(lf.hdr, r)))), from.Instrs[len(from.Instrs)-1].Pos())
 	}
 	if lc.Decreases != nil && hi.measure != nil {
 		m, err := f.evalLoopClause(li, lc, lc.Decreases, vals)
